@@ -153,9 +153,23 @@ def build_worklist(dev, wl):
     import robotools
 
     cls = {"evo": robotools.EvoWorklist, "fluent": robotools.FluentWorklist, "base": robotools.BaseWorklist}[dev]
+    import numpy
+
     mv = wl["max_volume"]
     mv = int(mv) if wl.get("max_int") else to_float(mv)
-    return cls(max_volume=mv, auto_split=wl["auto_split"], diti_mode=wl["diti_mode"])
+    if wl.get("max_np"):
+        # the same number as a numpy scalar / 0-d array (e.g. read from a configuration table)
+        conv = {"int64": numpy.int64, "int32": numpy.int32, "float32": numpy.float32, "float64": numpy.float64, "0d": numpy.array}[wl["max_np"]]
+        mv2 = conv(mv)
+        if float(mv2) != float(mv):
+            raise CaseError("max_volume not representable as " + wl["max_np"])
+        mv = mv2
+    dm = wl["diti_mode"]
+    if wl.get("diti_repr") == "int":
+        dm = 1 if dm else 0
+    elif wl.get("diti_repr") == "npbool":
+        dm = numpy.bool_(dm)
+    return cls(max_volume=mv, auto_split=wl["auto_split"], diti_mode=dm)
 
 
 # --------------------------------------------------------------------------- executing one call
@@ -220,7 +234,9 @@ def call(op, lws, wl):
             if f in op:
                 kwargs[f] = py_text(op[f])
         if op.get("exclude") is not None:
-            kwargs["exclude_wells"] = list(op["exclude"])
+            # exclude_wells is typed Iterable[int]: lists, tuples, sets and one-shot iterators are legal
+            conv = {"list": list, "tuple": tuple, "set": set, "iter": iter, "gen": lambda x: (y for y in x)}[op.get("exclude_type", "list")]
+            kwargs["exclude_wells"] = conv(list(op["exclude"]))
         return wl.reagent_distribution(py_text(op["src_label"]), py_int(op["src_start"]), py_int(op["src_end"]),
                                        py_text(op["dst_label"]), py_int(op["dst_start"]), py_int(op["dst_end"]),
                                        volume=py_vol(op["volume"]), **kwargs)
@@ -415,6 +431,24 @@ def run_program(case):
                     "labels": list(lw._labels)} for lw in lws],
             "comp": {str(k): comp_obs(lws[k]) for k in touched(op)},
         }
+        if (exc is not None and op["op"] == "transfer" and not case["wl"]["auto_split"]
+                and type(exc).__name__ not in ("InvalidOperationError", "VolumeOverflowError", "VolumeUnderflowError")):
+            # would the very same call be accepted by a worklist that may split?  (then its only fault is the oversized step)
+            try:
+                lws2 = build_all_labware(case["labware"])
+                wl2 = build_worklist(case["dev"], dict(case["wl"], auto_split=True))
+                for op2 in case["ops"][:i_op]:
+                    try:
+                        call(op2, lws2, wl2)
+                    except Exception:
+                        pass
+                try:
+                    call(op, lws2, wl2)
+                    step["accepted_with_split"] = True
+                except Exception:
+                    step["accepted_with_split"] = False
+            except Exception:
+                pass
         obs["steps"].append(step)
         capture()
     obs["final"] = {
